@@ -83,8 +83,9 @@ def observe_text(c):
     from jaqalpaq.run import run_jaqal_string
     text = c['src']
     out = {'id': c['id'], 'text': [min(ord(ch), 255) for ch in text], 'src': text}
-    for key, fn in (('parse', lambda: parse_jaqal_string(text, autoload_pulses=False)),
-                    ('run', lambda: run_jaqal_string(text))):
+    auto = 'usepulses' in text and 'vpulses' in text       # texts that name the pulse fixture are executable
+    for key, fn in (('parse', lambda: parse_jaqal_string(text, autoload_pulses=auto, import_path=PULSES)),
+                    ('run', lambda: run_jaqal_string(text, import_path=PULSES))):
         r, e = impl.with_cpu_limit(fn, seconds=3)
         o = {'cls': 'ok', 'eof': False, 'off': -1, 'haspos': False}
         if e is not None:
@@ -146,6 +147,14 @@ def texts_stage(rep, tier, wd, rng):
     corpus = [open(f).read()[:400] for f in sorted(glob.glob('/repo/examples/jaqal/**/*.jaqal', recursive=True))] + POOL
     for n in range(1200 if tier == 'quick' else 20000):
         srcs.append(mutate(rng.choice(corpus), rng))
+    # (4) executable programs (gate definitions through a usepulses statement) with loop counts at the edge: negative
+    # literal, negative constant, zero, around prepare / measure events
+    from . import passes
+    progs = passes.enumerate_programs(rep, 'edge-loops', passes.ast_cfg('H_N', 'M_E0', 'T_N', 'O_N', 5, 3, invariants=()), wd,
+                                      budget=1500 if tier == 'quick' else 30000)
+    rep.cov['executable_edge_loop_programs'] = len(progs)
+    for p in progs:
+        srcs.append(render.render_prog(p))
     srcs = sorted(set(s for s in srcs if all(ord(ch) < 256 for ch in s)))
     cases = [{'id': 'text/%d' % n, 'src': s} for n, s in enumerate(srcs)]
     recs = core.pool_map(observe_text, cases, chunksize=200)
